@@ -267,3 +267,57 @@ func TestVerifChainRules(t *testing.T) {
 		rec.dump(t, fmt.Sprintf("sc%05d", s))
 	}
 }
+
+// TestVerifUnitsOverflow (C12, "arithmetic overflow rejected"): rule costs are multiples of 2^60 and every other storage
+// cost is zero, so the three storage dimensions are exact multiples of 2^60 and overflow uint64 exactly when the sum
+// reaches 16 such units.  One "unitsrow" line per real Transaction.Units call, logged in units of 2^60.
+func TestVerifUnitsOverflow(t *testing.T) {
+	skipUnlessVerif(t)
+	seed := int64(envInt("VERIF_SEED", 1))
+	n := envInt("VERIF_ROWS", 300)
+	r := rand.New(rand.NewSource(seed*77_003 + 5))
+	rec := &recorder{}
+	chunks := map[string]uint16{}
+	for _, k := range execKeyNames {
+		chunks[k] = 1
+	}
+	w := newWorld(execKeyNames, chunks, execAccounts)
+	rec.add(resetLine{Ev: "reset", State: randState(r, w), Rules: w.ruleRec(), Note: "units overflow rows"})
+	const unit = uint64(1) << 60
+	for i := 0; i < n; i++ {
+		scaled := []int64{int64(r.Intn(4)), int64(r.Intn(4)), int64(r.Intn(3))} // value read / allocate / write cost per chunk
+		w.rules.StorageKeyReadUnits, w.rules.StorageKeyAllocateUnits, w.rules.StorageKeyWriteUnits = 0, 0, 0
+		w.rules.StorageValueReadUnits = uint64(scaled[0]) * unit
+		w.rules.StorageValueAllocateUnits = uint64(scaled[1]) * unit
+		w.rules.StorageValueWriteUnits = uint64(scaled[2]) * unit
+		nonceCounter++
+		a := &VerifAction{Compute: 1, Start: -1, End: -1, Nonce: nonceCounter}
+		total := int64(1) // the sponsor's balance key has one chunk
+		chs := []int64{}
+		for _, k := range w.keyNames {
+			if r.Intn(3) == 0 {
+				continue
+			}
+			c := uint16(1 + r.Intn(3))
+			a.Keys = append(a.Keys, vKey{Name: k, Perm: 7, Chunks: c})
+			total += int64(c)
+			chs = append(chs, int64(c))
+		}
+		tx, err := w.makeTx(vTx{Sponsor: "s1", MaxFee: 1, Expiry: 1000, Actions: []*VerifAction{a}})
+		if err != nil {
+			t.Fatal(err)
+		}
+		units, uerr := tx.Units(w.bh, w.rules)
+		got := []int64{-1, -1, -1}
+		if uerr == nil {
+			for d := 0; d < 3; d++ {
+				if units[2+d]%unit != 0 {
+					t.Fatalf("harness: storage units not a multiple of 2^60: %d", units[2+d])
+				}
+				got[d] = int64(units[2+d] / unit)
+			}
+		}
+		rec.add(map[string]any{"ev": "unitsrow", "chunks": append([]int64{1}, chs...), "cost": scaled, "err": uerr != nil, "units": got})
+	}
+	rec.dump(t, "ov00000")
+}
